@@ -1,6 +1,6 @@
 (* Props_C09.v — C09: one record per address; identities only move forward;
    own address never active; payload of superseded / Down senders discarded. *)
-From Foca Require Import Laws MembersM FocaM L_Members L_MembersInv L_Join L_Forward L_Reject L_Discard Inv Reach L_Told.
+From Foca Require Import Laws MembersM FocaM L_Members L_MembersInv L_Join L_Forward L_Reject L_Discard Inv Reach L_Told L_Evidence L_Monotone.
 
 Section C09.
 Context {Id Addr : Type} {IO : IdOps Id Addr} {CO : CodecOps Id} {HO : HandlerOps Id}.
@@ -85,6 +85,17 @@ Theorem C09_history_only_told (id0 : Id) (c0 : config) (h0 : hstate) (f : @foca 
   thist id0 c0 h0 f T -> forall a, In a (map (fun m => addr_of (m_id m)) (inner (mems f))) -> T a.
 Proof. exact (thist_told id0 c0 h0 f T). Qed.
 
+(* IDENTITIES ONLY MOVE FORWARD, over whole call histories: as long as no forget-timer fires, an address
+   that has a record keeps one, and the identity stored for it is the same or one that wins the address
+   conflict against the earlier one - never a fallback *)
+Theorem C09_identity_moves_forward_along_histories (rnd : oracle) (l : list (@input Id)) (f : @foca Id Addr HO) (a : Addr) (k : member Id) :
+  no_forget l -> uniq (inner (mems f)) -> view (mems f) a = Some k ->
+  exists k', view (mems (run_calls rnd f l)) a = Some k'
+    /\ (m_id k' = m_id k \/ wins (m_id k') (m_id k) = true).
+Proof.
+  intros NF U V. destruct (history_down_final rnd l f a k NF U V) as (k' & V' & H & _). exists k'. auto.
+Qed.
+
 End C09.
 
 Print Assumptions C09_only_told_addresses.
@@ -94,3 +105,4 @@ Print Assumptions C09_identity_forward.
 Print Assumptions C09_no_fallback.
 Print Assumptions C09_reject_own_source.
 Print Assumptions C09_discard_inactive_sender.
+Print Assumptions C09_identity_moves_forward_along_histories.
